@@ -190,6 +190,15 @@ class R:
     item: Optional[Base] = field(default=None, metadata={"type": "Element"})
 '''
 INST_XDROP = {"__cls__": "R", "fields": {"item": {"__cls__": "item", "fields": {"x": {"__p__": "int", "v": 1}, "y": {"__p__": "int", "v": 2}}}}}
+# finding C01-F9: an attribute-map value of the form prefix:local, the prefix being one the writer binds itself
+WITNESS_MAPQ = G.HEADER + '''
+@dataclass
+class R:
+    class Meta:
+        namespace = "urn:a"
+    m: dict[str, str] = field(default_factory=dict, metadata={"type": "Attributes", "namespace": "##any"})
+'''
+INST_MAPQ = {"__cls__": "R", "fields": {"m": {"__map__": {"k": "ns0:x"}}}}
 WITNESS_JOBS = [
     {"src": WITNESS_RICH, "name": "w_rich", "root": "Root", "instances": [INST_RICH], "cases": [
         {"i": 0, "writer": "native", "handler": "native", "config": {"indent": "  "}, "ns_map": {"p": "urn:a"}, "strict": True},
@@ -208,12 +217,14 @@ WITNESS_JOBS = [
         {"i": 0, "writer": "lxml", "handler": "lxml", "config": {}, "ns_map": {"s": "urn:s"}, "strict": True}]},
     {"src": WITNESS_XDROP, "name": "w_xdrop", "root": "R", "instances": [INST_XDROP], "cases": [
         {"i": 0, "writer": "native", "handler": "native", "config": {}, "ns_map": None, "strict": True}]},
+    {"src": WITNESS_MAPQ, "name": "w_mapq", "root": "R", "instances": [INST_MAPQ], "cases": [
+        {"i": 0, "writer": "native", "handler": "native", "config": {}, "ns_map": None, "strict": True}]},
 ]
 WITNESS_PATH = os.path.join(COQ, "Proofs", "RoundtripWitness.v")
 
 
 def witness_text(out):
-    rich, nil, seqtok, qn, tree, inh, xdrop = out["jobs"]
+    rich, nil, seqtok, qn, tree, inh, xdrop, mapq = out["jobs"]
 
     def D(name, ty, term):
         return f"Definition {name} : {ty} :=\n  {term}.\n"
@@ -299,6 +310,15 @@ Import ListNotations.
     txt += D("root_xdrop", "cls", xdrop["root"])
     txt += D("o_xdrop", "value", xdrop["cases"][0]["value"])
     txt += D("pevs_xdrop", "list pevent", xdrop["cases"][0]["pevents"])
+    txt += '''
+(* model `mapq` (known finding C01-F9): class R in namespace urn:a with an attribute map; instance R(m={'k': 'ns0:x'}):
+   the writer binds ns0 to urn:a itself and writes k="ns0:x" literally; ParserUtils.parse_any_attribute expands the
+   value to '{urn:a}x' *)
+'''
+    txt += D("u_mapq", "universe", mapq["universe"])
+    txt += D("root_mapq", "cls", mapq["root"])
+    txt += D("o_mapq", "value", mapq["cases"][0]["value"])
+    txt += D("pevs_mapq", "list pevent", mapq["cases"][0]["pevents"])
     return txt
 
 
@@ -340,6 +360,8 @@ def check_witness(ck):
     if not out["jobs"][3]["cases"][0].get("equal"):
         ck.failure("guard-oracle", "the witness instance of model `qn` (QName element values, inside the guards) does not round-trip on the real code",
                    {"cases": out["jobs"][3]["cases"]})
+    if out["jobs"][7]["cases"][0].get("equal"):
+        ck.notes.append("witness of finding C01-F9 (attribute-map value prefix:local expanded) round-trips now: clause map_value_ok can go")
     if out["jobs"][3]["cases"][1].get("equal"):
         ck.notes.append("witness of finding C01-F3 (QName 'local' under a user default namespace) round-trips now")
     if out["jobs"][2]["cases"][0].get("equal"):
@@ -603,6 +625,26 @@ def add_subclass(r, m, insts):
         insts[i] = new
 
 
+def wildcard_class_candidate(r, m, host):
+    """a class of the model whose instances can sit in a wildcard of `host` and are found again by the parser through
+    their element name (XmlContext.find_type): attributes only (no content that could clash), a name of its own that
+    is not an element name of the host, not part of an inheritance / union construction"""
+    host_names = {f.get("xml_name") or f["name"] for f in G.all_fields(m, host)}
+    cands = []
+    for c in m["classes"]:
+        if c is host or c.get("twin") or c.get("base") or G.subclasses_of(m, c["name"]) or c["meta"].get("nillable"):
+            continue
+        fs = G.all_fields(m, c)
+        if not fs or any(f["kind"] != "Attribute" for f in fs):
+            continue
+        if (c["meta"].get("name") or c["name"]) in host_names:
+            continue
+        if sum(1 for d in m["classes"] if (d["meta"].get("name") or d["name"]) == (c["meta"].get("name") or c["name"])) > 1:
+            continue
+        cands.append(c["name"])
+    return r.choice(cands) if cands else None
+
+
 def group_scalar_wildcards(r, m, v):
     """a single-valued wildcard field binds a run of unknown elements to ONE name-less AnyElement container
     (ElementNode.bind_wild_var wraps the value bound first when the second one arrives): genmodels only puts one
@@ -619,9 +661,16 @@ def group_scalar_wildcards(r, m, v):
         if f["kind"] == "Wildcard" and not f.get("list") and not f.get("mixed") and isinstance(x, dict) and "__any__" in x:
             if x["__any__"]["qname"] and r.random() < 0.4:
                 cons, cns = f.get("namespace", "##any"), G.class_namespace(m, c)
-                sibs = [G.gen_any(r, 0, cons, cns) for _ in range(r.choice([1, 1, 2]))]
+                # siblings: named generic elements, some with a tail (text between the unknown elements)
+                sibs = [G.gen_any(r, 0, cons, cns, tail_ok=r.random() < 0.3) for _ in range(r.choice([1, 1, 2]))]
+                first = x
+                if cons == "##any" and r.random() < 0.25:
+                    # a model instance first: a class of the model without namespace trouble, found again through its element name
+                    k = wildcard_class_candidate(r, m, c)
+                    if k is not None:
+                        first = G.gen_instance(r, m, k)
                 v["fields"][f["name"]] = {"__any__": {"qname": None, "text": None, "tail": None, "attributes": {},
-                                                       "children": [x] + sibs}}
+                                                       "children": [first] + sibs}}
         else:
             group_scalar_wildcards(r, m, x)
 
@@ -797,6 +846,8 @@ def classify(m, inst, case, res, vres):
         return "exception-" + res["exc"]
     if path.endswith("<keys>") and "XMLSchema-instance}" in res.get("back", ""):
         return "xsi-attr-captured-by-attributes-map"
+    if prefixed_any_values(inst) and along_any_attribute(m, inst, path):
+        return "any-attribute-prefixed-value"     # C01-F9: 'prefix:local' in an attribute map / generic attribute is expanded
     along = fields_along(m, inst, path)
     if not along:
         return "root"
@@ -812,6 +863,28 @@ def classify(m, inst, case, res, vres):
                 return "nil-conflation"     # one side is None: xsi:nil written for / read as an empty value
     c, f = along[-1]
     return "other-" + f["kind"]
+
+
+def prefixed_any_values(v):
+    """the instance holds an attribute-map value or a generic-element attribute value of the form prefix:local"""
+    if isinstance(v, list):
+        return any(prefixed_any_values(x) for x in v)
+    if isinstance(v, dict):
+        if "__map__" in v:
+            return any(isinstance(x, str) and re.match(r"^[^:/ ]+:[^/]", x) for x in v["__map__"].values())
+        if "__any__" in v:
+            a = v["__any__"]
+            return any(isinstance(x, str) and re.match(r"^[^:/ ]+:[^/]", x) for x in a["attributes"].values()) \
+                or prefixed_any_values(a["children"])
+        if "fields" in v:
+            return any(prefixed_any_values(x) for x in v["fields"].values())
+    return False
+
+
+def along_any_attribute(m, inst, path):
+    """the first difference sits in an attribute map or below a wildcard field"""
+    along = fields_along(m, inst, path)
+    return any(f["kind"] in ("Attributes", "Wildcard") for _, f in along)
 
 
 def corpus_jobs():
